@@ -35,12 +35,24 @@ enum { K_PLAIN, K_REF, K_BOX, K_ARRAY, K_LIST, K_TABLE, K_TREE, K_TUPLE,
        K_TREE_SK, K_TREE_SV, K_TABLE_SK, K_TABLE_SV, K_ARRAY_P, K_LIST_P, K_TREE_P,
        /* constructed with Int element/key/value types and then given, by assign(), the contents of a container of Refs:
        ** whatever the container decided about itself at construction must not survive the change of its types */
-       K_ARRAY_CV, K_LIST_CV, K_TABLE_CV, K_TREE_CV, K_N };
-static const char KLET[] = "prbaltTuSVHhALPQqCc";
+       K_ARRAY_CV, K_LIST_CV, K_TABLE_CV, K_TREE_CV,
+       /* a plain struct with two reference fields whose type ALSO implements C_Int, C_Float, C_Str, Cmp, Hash and Show: what a
+       ** type converts to says nothing about what it refers to */
+       K_PLAIN_CONV, K_N };
+static const char KLET[] = "prbaltTuSVHhALPQqCcX";
 static const char* KNAME[] = { "plain", "Ref", "Box", "Array", "List", "Table", "Tree", "Tuple",
   "Tree<tag4,Ref>", "Tree<Ref,tag4>", "Table<tag4,Ref>", "Table<Ref,tag4>", "Array<struct>", "List<struct>", "Tree<Int,struct>",
-  "Array<Int>:=Array<Ref>", "List<Int>:=List<Ref>", "Table<Int,Int>:=Table<Ref,Ref>", "Tree<Int,Int>:=Tree<Ref,Ref>" };
-static int base_kind(int k) { return k == K_ARRAY_CV ? K_ARRAY : k == K_LIST_CV ? K_LIST : k == K_TABLE_CV ? K_TABLE : k == K_TREE_CV ? K_TREE : k; }
+  "Array<Int>:=Array<Ref>", "List<Int>:=List<Ref>", "Table<Int,Int>:=Table<Ref,Ref>", "Tree<Int,Int>:=Tree<Ref,Ref>", "plain-with-conversions" };
+static int base_kind(int k) { return k == K_ARRAY_CV ? K_ARRAY : k == K_LIST_CV ? K_LIST : k == K_TABLE_CV ? K_TABLE : k == K_TREE_CV ? K_TREE : k == K_PLAIN_CONV ? K_PLAIN : k; }
+struct PlainC { var a; var b; uint64_t canary; };
+static int64_t PlainC_C_Int(var self) { return 7; }
+static double PlainC_C_Float(var self) { return 7.5; }
+static char* PlainC_C_Str(var self) { return "plainc"; }
+static int PlainC_Cmp(var self, var obj) { return self < obj ? -1 : self > obj; }
+static uint64_t PlainC_Hash(var self) { return 11; }
+static int PlainC_Show(var self, var out, int pos) { return print_to(out, pos, "<plainc>"); }
+var PlainC = Cello(PlainC, Instance(C_Int, PlainC_C_Int), Instance(C_Float, PlainC_C_Float), Instance(C_Str, PlainC_C_Str),
+  Instance(Cmp, PlainC_Cmp), Instance(Hash, PlainC_Hash), Instance(Show, PlainC_Show, NULL));
 enum { R_NONE, R_STACK, R_NEWROOT, R_ROOTREF, R_TLS, R_REG, R_N };
 static const char RLET[] = "-snrtg";
 static const char* RNAME[] = { "none", "stack", "new_root", "root-Ref-holder", "thread-local", "callee-saved-register" };
@@ -95,7 +107,7 @@ static int shape_ok(struct shape* s) {
   { int nreg = 0; for (int i = 0; i < s->n; i++) if (s->root[i] == R_REG) nreg++; if (nreg > 1 || (nreg && !VF_HAVE_REGROOT)) return 0; }
   for (int i = 0; i < s->n; i++) {
     int d = popcount(s->edges[i]);
-    if (s->kind[i] == K_PLAIN && d > 2) return 0;
+    if ((s->kind[i] == K_PLAIN || s->kind[i] == K_PLAIN_CONV) && d > 2) return 0;
     if ((s->kind[i] == K_REF || s->kind[i] == K_BOX) && d > 1) return 0;
     if (s->kind[i] == K_BOX && d == 1) {
       int t[MAXN]; targets(s, i, t);
@@ -115,6 +127,7 @@ static int shape_ok(struct shape* s) {
 static var alloc_node(int kind, int as_root) {
   switch (kind) {
   case K_PLAIN: { struct Plain* p = as_root ? (var)new_root(Plain) : (var)new(Plain); p->canary = CANARY; return p; }
+  case K_PLAIN_CONV: { struct PlainC* p = as_root ? (var)new_root(PlainC) : (var)new(PlainC); p->canary = CANARY; return p; }
   case K_REF:   return as_root ? (var)new_root(Ref) : (var)new(Ref);
   case K_BOX:   { struct Box* b = as_root ? (var)alloc_root(Box) : (var)alloc(Box); b->val = NULL; return b; }
   case K_ARRAY: return as_root ? (var)new_root(Array, Ref) : (var)new(Array, Ref);
@@ -149,7 +162,7 @@ static void __attribute__((noinline)) build(struct shape* s) {
   for (int i = 0; i < s->n; i++) {
     int t[MAXN]; int d = targets(s, i, t);
     switch (s->kind[i]) {
-    case K_PLAIN: { struct Plain* p = N[i]; if (d > 0) p->a = N[t[0]]; if (d > 1) p->b = N[t[1]]; break; }
+    case K_PLAIN: case K_PLAIN_CONV: { struct Plain* p = N[i]; if (d > 0) p->a = N[t[0]]; if (d > 1) p->b = N[t[1]]; break; }
     case K_REF: case K_BOX: if (d) ref(N[i], N[t[0]]); break;
     case K_ARRAY: case K_LIST: for (int k = 0; k < d; k++) push(N[i], $R(N[t[k]])); break;
     case K_TABLE: case K_TREE:
@@ -200,7 +213,7 @@ static const char* verify_node(struct shape* s, int i) {
   switch (base_kind(s->kind[i])) {
   case K_PLAIN: { struct Plain* p = x;
     if (p->canary != CANARY) return "contents-corrupted";
-    if (type_of(x) != Plain) return "type-changed";
+    if (type_of(x) != (s->kind[i] == K_PLAIN_CONV ? PlainC : Plain)) return "type-changed";
     if (d > 0 && p->a != N[t[0]]) return "contents-corrupted";
     if (d > 1 && p->b != N[t[1]]) return "contents-corrupted";
     return NULL; }
